@@ -82,11 +82,11 @@ inline RealWorld& newRealWorld() {
   return w;
 }
 // mines VBK block number `id` on top of miner block `prevId` (header fields by the library's own template function, hash preset)
-inline VbkBlock mineVbk(RealWorld& w, uint8_t prevId) {
+inline VbkBlock mineVbk(RealWorld& w, uint8_t prevId, const uint128& merkleRoot = uint128()) {
   auto* tip = w.mvbk->getBlockIndex(w.vbkById[prevId].getHash());
   VBK_ASSERT(tip != nullptr);
   Miner<VbkBlock, VbkChainParams> m(w.vp);
-  VbkBlock b = m.getBlockTemplate(*tip, uint128());
+  VbkBlock b = m.getBlockTemplate(*tip, merkleRoot);
   uint8_t id = w.nextVbk++;
   b.nonce = id;
   b.timestamp = tip->getTimestamp() + 1;
@@ -100,11 +100,11 @@ inline VbkBlock mineVbk(RealWorld& w, uint8_t prevId) {
   return b;
 }
 // mines BTC block number `id` on top of miner block `prevId` (hash preset; display order: last byte = id)
-inline BtcBlock mineBtc(RealWorld& w, uint8_t prevId) {
+inline BtcBlock mineBtc(RealWorld& w, uint8_t prevId, const uint256& merkleRoot = uint256()) {
   auto* tip = w.mbtc->getBlockIndex(w.btcById[prevId].getHash());
   VBK_ASSERT(tip != nullptr);
   Miner<BtcBlock, BtcChainParams> m(w.bp);
-  BtcBlock b = m.getBlockTemplate(*tip, uint256());
+  BtcBlock b = m.getBlockTemplate(*tip, merkleRoot);
   uint8_t id = w.nextBtc++;
   b.nonce = id;
   b.timestamp = tip->getTimestamp() + 1;
@@ -157,6 +157,44 @@ inline ATV makeATV(RealWorld& w, uint8_t endorsed, uint8_t ctxOf, uint8_t contai
   atv.transaction.publicKey = std::vector<uint8_t>(8, 7);
   atv.blockOfProof = w.vbkById[containingVbk];
   return atv;
+}
+// ---- statelessly VALID payloads (for the mempool's natural submit paths).  Everything is honest and computed with the real
+// code (ids, SHA-256 transaction hashes, Merkle roots: each transaction is the only one of its block, so its path has no layers
+// and the block's Merkle root is the transaction hash itself); only signature verification / address derivation are link-level
+// oracles answering "valid" (see h_mempool.cpp MODE_SUBMIT).
+inline ATV makeValidATV(RealWorld& w, uint8_t endorsedAlt, uint8_t prevVbk, uint8_t salt) {
+  ATV atv;
+  auto* ei = w.alt->getBlockIndex(altHash(endorsedAlt));
+  VBK_ASSERT(ei != nullptr);
+  PopData none;
+  AltBlock eb = mkAlt(endorsedAlt, w.parent[endorsedAlt], w.height[endorsedAlt]);
+  atv.transaction.networkOrType.networkType = w.vp.getTransactionMagicByte();
+  atv.transaction.networkOrType.typeId = 1;
+  atv.transaction.publicationData = GeneratePublicationData(altHeaderBytes(eb), *ei, std::vector<uint8_t>(32, 0), none, std::vector<uint8_t>{salt, 2, 3}, w.ap);
+  atv.transaction.signatureIndex = salt;
+  atv.transaction.signature = std::vector<uint8_t>(8, salt);
+  atv.transaction.publicKey = std::vector<uint8_t>(8, 7);
+  uint256 h = atv.transaction.getHash();
+  atv.merklePath.treeIndex = 1; atv.merklePath.index = 0; atv.merklePath.subject = h;
+  atv.blockOfProof = mineVbk(w, prevVbk, h.trim<16>());
+  return atv;
+}
+inline VTB makeValidVTB(RealWorld& w, uint8_t endorsedVbk, uint8_t prevVbk, uint8_t prevBtc, uint8_t salt) {
+  VTB v;
+  auto& tx = v.transaction;
+  tx.networkOrType.networkType = w.vp.getTransactionMagicByte();
+  tx.networkOrType.typeId = 2;
+  tx.publishedBlock = w.vbkById[endorsedVbk];
+  { WriteStream ws; tx.publishedBlock.toRaw(ws); tx.address.getPopBytes(ws); tx.bitcoinTransaction.tx = std::vector<uint8_t>(3, salt); tx.bitcoinTransaction.tx.insert(tx.bitcoinTransaction.tx.end(), ws.data().begin(), ws.data().end()); }
+  uint256 bh = tx.bitcoinTransaction.getHash();
+  tx.merklePath.index = 0; tx.merklePath.subject = bh;
+  tx.blockOfProof = mineBtc(w, prevBtc, bh.reverse());
+  tx.signature = std::vector<uint8_t>(8, salt);
+  tx.publicKey = std::vector<uint8_t>(8, 9);
+  uint256 h = tx.getHash();
+  v.merklePath.treeIndex = 0; v.merklePath.index = 0; v.merklePath.subject = h;
+  v.containingBlock = mineVbk(w, prevVbk, h.trim<16>());
+  return v;
 }
 inline bool isAltAncestorOrSelf(const RealWorld& w, int a, int x) { while (x) { if (x == a) return true; x = w.parent[x]; } return false; }
 }  // namespace vr
